@@ -1612,3 +1612,97 @@ func alwaysCallsOnParam(pk *packages.Package, fn *types.Func, i int, method stri
 	}
 	return true
 }
+
+// ruleStmtPrepared (C16/C17): the store prepares each statement lazily, once per batch
+// (`if stmt == nil { stmt, err = tx.Prepare(CONST) … }`) and hands it to the command's handler. On
+// every path to a call that takes a *sql.Stmt variable, that variable was either found non-nil or
+// has just been prepared (must-facts with the outcome of the nil test on the edges): otherwise the
+// handler executes a nil statement and the store goroutine panics in the middle of a batch.
+func ruleStmtPrepared(c *Ctx) {
+	m := c.sqlModel()
+	if m.Err != nil {
+		c.und("model", 0, m.Err.Error())
+		return
+	}
+	n := 0
+	for _, b := range m.Backends {
+		info := b.Pkg.TypesInfo
+		fd := b.Perform
+		g := buildCFG(b.Pkg, fd.Body)
+		isStmt := func(t types.Type) bool { return isNamed(t, "database/sql", "Stmt") }
+		gen := func(nd ast.Node) []string {
+			as, ok := nd.(*ast.AssignStmt)
+			if !ok || len(as.Rhs) != 1 || len(as.Lhs) < 1 {
+				return nil
+			}
+			call, ok := ast.Unparen(as.Rhs[0]).(*ast.CallExpr)
+			if !ok {
+				return nil
+			}
+			if fn, ok := calleeOf(info, call).(*types.Func); !ok || fn.Name() != "Prepare" || fn.Pkg() == nil || fn.Pkg().Path() != "database/sql" {
+				return nil
+			}
+			if id, ok := as.Lhs[0].(*ast.Ident); ok {
+				return []string{"ready:" + id.Name}
+			}
+			return nil
+		}
+		edge := func(blk *cfg.Block, i int) []string {
+			if len(blk.Succs) != 2 || len(blk.Nodes) == 0 {
+				return nil
+			}
+			cond, ok := blk.Nodes[len(blk.Nodes)-1].(ast.Expr)
+			if !ok {
+				return nil
+			}
+			obj, nonNil, ok := nilTest(info, cond)
+			if !ok || !isStmt(obj.Type()) {
+				return nil
+			}
+			if (i == 0) == nonNil { // edge on which the statement is not nil
+				return []string{"ready:" + obj.Name()}
+			}
+			return nil
+		}
+		uses := mustFacts(g, gen, edge, func(nd ast.Node) bool {
+			found := false
+			for _, call := range callsIn(nd) {
+				for _, a := range call.Args {
+					if id, ok := ast.Unparen(a).(*ast.Ident); ok {
+						if v, ok := info.Uses[id].(*types.Var); ok && isStmt(v.Type()) {
+							found = true
+						}
+					}
+				}
+			}
+			return found
+		})
+		occ := map[string]int{}
+		var nodes []ast.Node
+		for nd := range uses {
+			nodes = append(nodes, nd)
+		}
+		sort.Slice(nodes, func(i, j int) bool { return nodes[i].Pos() < nodes[j].Pos() })
+		for _, nd := range nodes {
+			f := uses[nd]
+			for _, call := range callsIn(nd) {
+				for _, a := range call.Args {
+					id, ok := ast.Unparen(a).(*ast.Ident)
+					if !ok {
+						continue
+					}
+					v, ok := info.Uses[id].(*types.Var)
+					if !ok || !isStmt(v.Type()) {
+						continue
+					}
+					n++
+					occ[id.Name]++
+					key := fmt.Sprintf("stmt-prepared/%s/%s#%d", b.Name, id.Name, occ[id.Name])
+					c.check(f["ready:"+id.Name], key, call.Pos(), id.Name+" is non-nil or freshly prepared on every path to this call", "the statement "+id.Name+" handed to "+calleeName(info, call)+" can still be nil here (it is prepared lazily): executing it panics on the store goroutine and fails the whole batch")
+				}
+			}
+		}
+	}
+	c.count("prepared_statement_uses", n)
+	c.floor("handler calls that take a prepared statement", n, 30)
+}
